@@ -16,8 +16,14 @@ def main():
     base = random.Random("gw/%d" % seed)
     for k in range(count):
         rng = random.Random(base.randrange(1 << 62))
-        sc = G.gen(rng, with_debug=False, with_setup=False, with_tags=False)
+        setup_run = rng.random() < 0.25
+        sc = G.gen(rng, with_debug=False, with_setup=setup_run, with_tags=False)
         sc["is_async"] = False
+        if setup_run:
+            # an explicit setup() run: the setup nodes execute, ranked by their compound priorities in the WHOLE DAG
+            sc["op"] = "setup"
+            for s_ in sc["specs"]:          # several setup nodes ready at once, others waiting for them
+                s_["setup"] = all(sc["specs"][p_]["setup"] for p_ in s_["preds"]) and rng.random() < 0.8
         # distinct priorities -> make ties unlikely; the comparer only uses tie-free cases for order
         for i, s in enumerate(sc["specs"]):
             s["prio"] = rng.choice([1, 2, 3, 5, 7, 11, 13, 17, 19, 23]) * (10 ** (i % 3))
@@ -30,7 +36,7 @@ def main():
         if rng.random() < 0.5:
             # a history: (maybe) one call under the build-time priorities, then a reconfiguration that changes the
             # ranking, then the observed call: the order must be the one of the NEW compound priorities
-            if rng.random() < 0.7:
+            if rng.random() < 0.7 and not setup_run:
                 d()
             newp = {}
             for i in rng.sample(range(sc["n"]), rng.randint(1, min(3, sc["n"]))):
@@ -44,7 +50,10 @@ def main():
         order = []
         orig = dict(G.COUNTS)
         # execution order = order in which counters appear
-        d()
+        if sc.get("op") == "setup":
+            d.setup()
+        else:
+            d()
         order = [i for (_inst, i) in G.COUNTS.keys()]
         print(json.dumps(dict(k=k, sc=sc, table=table, order=order)))
 
